@@ -2,7 +2,7 @@
    verdict = (model = implementation ?) + 2 * (property checker rejects the implementation's output).
    Element types: Z (integers; floats through an order embedding) and code-point strings. *)
 From EsVerif.Common Require Import Base.
-From EsVerif.C06 Require Import Model Spec.
+From EsVerif.C06 Require Import Model Spec Forms.
 Local Open Scope nat_scope.
 
 Definition nl_eqb : list nat -> list nat -> bool := list_eqb Nat.eqb.
@@ -132,3 +132,161 @@ Definition match_sweep (k n1 n2 : nat) : bool :=
         end
       end) (flat_map (all_lists k) (seq 0 (S n2))))
     (flat_map (all_lists k) (seq 0 (S n1))).
+
+(* ======================================================================================
+   Additions (round 2): complete return values, argument forms, mixed kinds, grouping,
+   sweeps over functions given as arguments (so that a case file can pass the skeleton at
+   the regenerated parameters, Skel.v/Gen.v, without Exec.v depending on Gen.v).
+   ====================================================================================== *)
+Section V2.
+  Variable A : Type.
+  Variable ltb eqb : A -> A -> bool.
+
+  (* match / match_multi as called: like v_match, the checker also reads the output as groups
+     (implied by match_ok: FormsProofs.match_ok_groups) *)
+  Definition v_matchx (is_string presorted multi : bool) (a1 a2 : list A)
+             (out : result (list nat * list nat)) : Z :=
+    let model := if multi then match_multi ltb eqb is_string presorted a1 a2
+                 else match_ ltb eqb is_string presorted a1 a2 in
+    if presorted && negb multi && negb (sorted_b ltb a1) then 0%Z
+    else
+      verdict (result_eqb out2_eqb model out)
+              (match a1, a2 with
+               | [], _ | _, [] => true
+               | _, _ =>
+                   if nodupb eqb a1
+                   then match out with
+                        | Ok o => match_check eqb a1 a2 o && groups_check eqb a1 a2 o
+                        | Err _ => false
+                        end
+                   else negb (is_ok out)
+               end).
+
+  (* unique(arr, values=) with its complete return value; zero_d: a 0-d array was passed *)
+  Definition v_unique_call (zero_d : bool) (s : list nat) (a : list A) (values : bool)
+             (out : result (uout A)) : Z :=
+    verdict (sorting_perm_check ltb s a && result_eqb (uout_eqb eqb) (unique_call eqb zero_d s a values) out)
+            (if zero_d then true
+             else match a with
+                  | [] => true
+                  | _ => match out with
+                         | Ok (UIdx keep) => negb values && one_per_value_check eqb a keep
+                         | Ok (UVals vals) => values && values_check eqb a vals
+                         | Err _ => false
+                         end
+                  end).
+
+  (* rem_dup(arr, flag, values=): (python scalar returned?, indices, values) *)
+  Definition v_rem_dup_call (s : list nat) (a : list A) (flag : list Z) (values : bool)
+             (out : result (rdout A)) : Z :=
+    verdict (sorting_perm_check ltb s a && result_eqb (rdout_eqb eqb) (rem_dup_call eqb s a flag values) out)
+            (match a with
+             | [] => true
+             | _ => if length a =? length flag
+                    then match out with
+                         | Ok (_, keep, vals) =>
+                             rem_dup_check eqb a flag keep
+                             && (if values
+                                 then match vals, gather a keep with
+                                      | Some v, Some g => list_eqb eqb g v
+                                      | _, _ => false
+                                      end
+                                 else match vals with None => true | Some _ => false end)
+                         | Err _ => false
+                         end
+                    else true
+             end).
+
+  Definition show_calls (zero_d : bool) (s : list nat) (a : list A) (flag : list Z) (values : bool) :=
+    (sorting_perm_check ltb s a, unique_call eqb zero_d s a values, rem_dup_call eqb s a flag values).
+End V2.
+
+Arguments v_matchx {A}. Arguments v_unique_call {A}. Arguments v_rem_dup_call {A}. Arguments show_calls {A}.
+
+Definition vz_matchx := v_matchx zltb zeqb false.
+Definition vs_matchx := v_matchx lex_ltb lex_eqb true.
+Definition vt_matchx := v_matchx tag_ltb tag_eqb true.       (* bytes against unicode *)
+Definition vz_unique_call := v_unique_call zltb zeqb.
+Definition vs_unique_call := v_unique_call lex_ltb lex_eqb.
+Definition vz_rem_dup_call := v_rem_dup_call zltb zeqb.
+Definition vs_rem_dup_call := v_rem_dup_call lex_ltb lex_eqb.
+
+(* ------------------------------------------------------------------ small-scope sweeps
+   every array over a k-letter alphabet of length <= n (lengths 0 included where the code
+   accepts them).  The functions under test are arguments. *)
+Definition lists_upto (k n : nat) : list (list Z) := flat_map (all_lists k) (seq 0 (S n)).
+
+Fixpoint find_first {B} (f : B -> bool) (l : list B) : option B :=
+  match l with [] => None | x :: t => if f x then Some x else find_first f t end.
+
+(* does [f a1 a2] (a match implementation) do what the property says on this pair? *)
+Definition match_pair_ok (f : list Z -> list Z -> result (list nat * list nat)) (a1 a2 : list Z) : bool :=
+  match a1, a2 with
+  | [], _ | _, [] => true
+  | _, _ =>
+    match f a1 a2 with
+    | Ok o => nodupb zeqb a1 && match_check zeqb a1 a2 o && groups_check zeqb a1 a2 o
+    | Err e => negb (nodupb zeqb a1)
+    end
+  end.
+
+(* restrict [f] to a sorted first array (for presorted=True) *)
+Definition when_sorted (f : list Z -> list Z -> result (list nat * list nat)) (a1 a2 : list Z) :=
+  if sorted_b zltb a1 then f a1 a2 else match_ zltb zeqb false false a1 a2.
+
+Definition match_sweep_f f (k n1 n2 : nat) : bool :=
+  forallb (fun a1 => forallb (match_pair_ok f a1) (lists_upto k n2)) (lists_upto k n1).
+
+(* first failing pair, as [length a1; a1 ...; a2 ...] ([] = none) *)
+Definition match_cex_f f (k n1 n2 : nat) : list Z :=
+  match find_first (fun a1 => negb (forallb (match_pair_ok f a1) (lists_upto k n2))) (lists_upto k n1) with
+  | None => []
+  | Some a1 => match find_first (fun a2 => negb (match_pair_ok f a1 a2)) (lists_upto k n2) with
+               | None => []
+               | Some a2 => Z.of_nat (length a1) :: a1 ++ a2
+               end
+  end.
+
+Definition unique_one_ok (f : list nat -> list Z -> result (list nat)) (a : list Z) : bool :=
+  match a with
+  | [] => true
+  | _ => match f (argsort zltb a) a with Ok keep => one_per_value_check zeqb a keep | Err _ => false end
+  end.
+Definition unique_sweep_f f (k n : nat) : bool := forallb (unique_one_ok f) (lists_upto k n).
+Definition unique_cex_f f (k n : nat) : list Z :=
+  match find_first (fun a => negb (unique_one_ok f a)) (lists_upto k n) with None => [] | Some a => a end.
+
+Definition unique_values_one_ok (f : list nat -> list Z -> result (list Z)) (a : list Z) : bool :=
+  match a with
+  | [] => true
+  | _ => match f (argsort zltb a) a with Ok vals => values_check zeqb a vals | Err _ => false end
+  end.
+Definition unique_values_sweep_f f (k n : nat) : bool := forallb (unique_values_one_ok f) (lists_upto k n).
+
+(* rem_dup: every array with every flag array of the same length over the same alphabet *)
+Definition rem_dup_one_ok (f : list nat -> list Z -> list Z -> result (list nat)) (a flag : list Z) : bool :=
+  match a with
+  | [] => true
+  | _ => match f (argsort zltb a) a flag with Ok keep => rem_dup_check zeqb a flag keep | Err _ => false end
+  end.
+Definition rem_dup_sweep_f f (k kf n : nat) : bool :=
+  forallb (fun a => forallb (rem_dup_one_ok f a) (all_lists kf (length a))) (lists_upto k n).
+Definition rem_dup_cex_f f (k kf n : nat) : list Z :=
+  match find_first (fun a => negb (forallb (rem_dup_one_ok f a) (all_lists kf (length a)))) (lists_upto k n) with
+  | None => []
+  | Some a => match find_first (fun fl => negb (rem_dup_one_ok f a fl)) (all_lists kf (length a)) with
+              | None => []
+              | Some fl => Z.of_nat (length a) :: a ++ fl
+              end
+  end.
+
+(* the sweeps of the thorough tier at the hand model: 3-letter alphabet, lengths <= 5 *)
+Definition sweep_match_model (k n1 n2 : nat) : bool :=
+  match_sweep_f (match_ zltb zeqb false false) k n1 n2
+  && match_sweep_f (match_ zltb zeqb true false) k n1 n2                  (* the always-clamp path *)
+  && match_sweep_f (when_sorted (match_ zltb zeqb false true)) k n1 n2    (* presorted=True *)
+  && match_sweep_f (match_multi zltb zeqb false true) k n1 n2.
+Definition sweep_dedup_model (k kf n : nat) : bool :=
+  unique_sweep_f (unique_with zeqb) k n
+  && unique_values_sweep_f (unique_values_with zeqb) k n
+  && rem_dup_sweep_f (rem_dup_with zeqb) k kf n.
